@@ -157,6 +157,8 @@ def run_path(program, c, prefix, lookup=None):
         frp = Frame(func, dict(env), self_obj)
         frp.ctypes = ctypes
         frp.local_names = set(env) | {'result'}
+        frp.loop_entry = dict(getattr(ex, 'last_loop_entry', {}))      # entry(e, k) of a finished loop is usable in ensures
+        frp.loop_head = {}
         ex.frames.append(frp)
         ex.old_env = old_env
         try:
@@ -587,4 +589,15 @@ def discharge_all(obligs, budget=10, backends=('z3-5.1-inproc', 'z3-4.8', 'cvc5'
             with cf.ProcessPoolExecutor(max_workers=nw) as pool:
                 for i, r in pool.map(_work, tasks, chunksize=4):
                     results[i] = r
+    dump = os.environ.get('BSVC_DUMP')
+    if dump:
+        os.makedirs(dump, exist_ok=True)
+        for t in tasks:
+            r = results[t[0]]
+            ob = obligs[t[0]]
+            if r and r['status'] not in ('unsat',) and not ob.must_be_sat:
+                base = os.path.join(dump, '%s-%s-%d' % (ob.kind, ''.join(ch if ch.isalnum() else '_' for ch in str(ob.label))[-60:], t[0]))
+                open(base + '.smt2', 'w').write(t[1])
+                if t[6]:
+                    open(base + '.qf.smt2', 'w').write(t[6])
     return results, used
